@@ -12,7 +12,7 @@ from common import main
 import factory
 from c11_impl import copy_params, rand_spikes, maxdiff
 from inferno import neural, observe
-from inferno.core.infrastructure import RecordTensor, ShapedTensor
+from inferno.core.infrastructure import RecordTensor, ShapedTensor, Module
 
 GETTERS = {
     "neuron": ["dt", "batchsz", "shape"],
@@ -226,21 +226,222 @@ def run_case(case):
     return {"ok": True, "events": int(sum(float(o[0].double().abs().sum()) for o in ox) > 0)}
 
 
+# ---------------------------------------------------------------------------------------------------------------
+# model cases: the same setter sequences are evaluated by the Coq models (coq/C14/ConfigExec.v) with vm_compute
+import c01_impl
+from c13_impl import cons_of, isparam, flat2, mk as mk_t
+from common import DT, DTR
+
+KEEP = []  # RecordTensor / ShapedTensor only weak-reference their owner
+
+
+def snap_rt_full(owner, name):
+    """full state of a RecordTensor, in the layout of C13.ResizeExec.ser_rec"""
+    rt = getattr(owner, name)
+    cons = [c for c in cons_of(owner, name) if c[0] != 0]
+    return [c01_impl.snapshot(rt), cons, rt.dt, rt.duration, int(rt.inclusive), int(rt.valid), int(rt.ignored),
+            isparam(rt.value), sorted([int(k), int(v)] for k, v in rt.constraints.items())]
+
+
+def snap_rt_shape(rt):
+    """a RecordTensor without contents, in the layout of C14.ConfigExec.ser_rec_shape"""
+    v = rt.value
+    if v is None:
+        kind = [0]
+    elif v.numel() == 0 and v.ndim <= 1:
+        kind = [1, DTR[v.dtype]]
+    else:
+        kind = [2, DTR[v.dtype], list(v.shape[1:]), int(v.shape[0])]
+    return [rt.recordsz, rt.pointer, kind, sorted([int(k), int(v)] for k, v in rt.constraints.items()),
+            rt.dt, rt.duration, int(rt.inclusive)]
+
+
+def snap_st(owner, name):
+    """a ShapedTensor, in the layout of C13.ResizeExec.ser_shaped"""
+    st = getattr(owner, name)
+    v = st.value
+    d = [0] if v is None else [2, DTR[v.dtype], list(v.shape), flat2(v)]
+    return [cons_of(owner, name), d, int(st.valid), int(st.ignored), int(st.dimensionality), isparam(v)]
+
+
+def try_set(obj, a, v):
+    try:
+        setattr(obj, a, v)
+        return 0
+    except ValueError:
+        return 2
+    except RuntimeError:
+        return 1
+
+
+def rt_names(obj):
+    return sorted(k for k, v in vars(obj).items() if isinstance(v, RecordTensor))
+
+
+def st_names(obj):
+    return sorted(k for k, v in vars(obj).items() if isinstance(v, ShapedTensor) and not isinstance(v, RecordTensor))
+
+
+def snap_syn(X, full):
+    return [X.dt, X.delay, X.batchsz, int(X.inplace),
+            [snap_rt_full(X, n) if full else snap_rt_shape(getattr(X, n)) for n in rt_names(X)]]
+
+
+def syn_step(X, cls):
+    x = (torch.rand((X.batchsz, *X.shape)) < 0.5)
+    extra = ((torch.rand((X.batchsz, *X.shape)) * 4).round() / 2,) if cls == "DeltaPlusCurrent" else ()
+    X(x, *extra)
+
+
+def mk_synapse(cls, shape, dt, delay, batch, inplace):
+    kw = dict(factory.SYNAPSE_DEFAULTS[cls])
+    return getattr(neural, cls)(tuple(shape), dt, **dict(kw, delay=delay, batch_size=batch, inplace=inplace))
+
+
+def snap_red(X, spec):
+    return [X.dt, X.duration, int(bool(spec.get("inclusive", False))), int(X.inplace),
+            float(X.decay) if hasattr(X, "decay") else None, int(bool(X._initial)), snap_rt_shape(X.data_)]
+
+
 def run_model_case(case):
-    """setter sequences whose effect on the internal histories is compared with the Coq model (C14/Config.v)"""
-    if case["family"] == "synapse_model":
+    """setter sequences whose effect is compared with the Coq models (C14/Config.v and the extended models)"""
+    fam = case["family"]
+    if fam == "synapse_model":
         X = factory.build_synapse(case["spec"])
         for a, v in case["ops"]:
             setattr(X, a, v)
         recs = [v.recordsz for k, v in sorted(vars(X).items()) if isinstance(v, RecordTensor)]
         shapes = [None if v.value is None else v.value.shape[1] for k, v in sorted(vars(X).items()) if isinstance(v, RecordTensor)]
         return {"ok": True, "obs": {"dt": X.dt, "delay": X.delay, "batch": X.batchsz, "recs": recs, "bdim": shapes}}
-    if case["family"] == "tred_model":
+    if fam == "tred_model":
         X = mk_reducer(case["spec"])
         for a, v in case["ops"]:
             setattr(X, a, v)
         return {"ok": True, "obs": {"dt": X.dt, "decay": float(X.decay), "size": X.data_.recordsz, "dur": X.duration}}
-    raise ValueError(case["family"])
+    if fam == "record_model":
+        owner = Module()
+        KEEP.append(owner)
+        val = None if case["value"] is None else mk_t(case["value"][1], case["value"][2], case["value"][3])
+        RecordTensor.create(owner, "rec", case["dt"], case["dur"], val, constraints={int(k): int(v) for k, v in case["ucons"]},
+                            strict=case["strict"], live=False, inclusive=case["incl"])
+        rt = owner.rec
+        init = snap_rt_full(owner, "rec")
+        trace = []
+        for op in case["ops"]:
+            try:
+                if op[0] == "push":
+                    rt.push(mk_t(op[1], op[2], op[3]), inplace=False)
+                else:
+                    setattr(rt, {"dt": "dt", "dur": "duration", "incl": "inclusive"}[op[0]], op[1])
+            except (ValueError, RuntimeError):
+                pass
+            trace.append(snap_rt_full(owner, "rec"))
+        reported = [rt.dt, rt.duration, int(rt.inclusive)]
+        # the value a fresh record of the same data type and observation shape is constructed from
+        v = rt.value
+        fval = None if v is None else (torch.empty(0, dtype=v.dtype) if (v.numel() == 0 and v.ndim <= 1)
+                                       else torch.zeros(tuple(v.shape[1:]), dtype=v.dtype))
+        rt.reset(0)
+        cleared = snap_rt_full(owner, "rec")
+        fresh_owner = Module()
+        KEEP.append(fresh_owner)
+        RecordTensor.create(fresh_owner, "rec", reported[0], reported[1], fval,
+                            constraints={int(k): int(v) for k, v in case["ucons"]},
+                            strict=case["strict"], live=False, inclusive=bool(reported[2]))
+        fresh = snap_rt_full(fresh_owner, "rec")
+        fresh_owner.rec.reset(0)
+        return {"ok": True, "obs": {"init": init, "trace": trace, "reported": reported, "cleared": cleared,
+                                    "fresh": fresh, "fresh_cleared": snap_rt_full(fresh_owner, "rec")}}
+    if fam == "red_model":
+        spec = case["spec"]
+        X = mk_reducer(spec)
+        init = snap_red(X, spec)
+        trace = []
+        for op in case["ops"]:
+            try:
+                if op[0] == "obs":
+                    X(torch.zeros(op[1]))
+                elif op[0] == "clear":
+                    X.clear(keepshape=bool(op[1]))
+                else:
+                    setattr(X, {"dt": "dt", "dur": "duration", "inplace": "inplace"}[op[0]], op[1])
+            except (ValueError, RuntimeError):
+                pass
+            trace.append(snap_red(X, spec))
+        reported = [X.dt, X.duration, int(X.inplace)]
+        X.clear()
+        Y = mk_reducer(dict(spec, dt=reported[0], duration=reported[1], inplace=bool(reported[2])))
+        return {"ok": True, "obs": {"init": init, "trace": trace, "reported": reported, "cleared": snap_red(X, spec),
+                                    "fresh": snap_red(Y, spec)}}
+    if fam == "scomp_model":
+        s = case["spec"]
+        X = mk_synapse(s["cls"], s["shape"], s["dt"], s["delay"], s["batch"], s["inplace"])
+        init = snap_syn(X, True)
+        trace = []
+        for op in case["ops"]:
+            if op[0] == "step":
+                syn_step(X, s["cls"])
+                continue
+            try_set(X, op[0], op[1])
+            trace.append(snap_syn(X, False))
+        reported = [X.dt, X.delay, X.batchsz, int(X.inplace)]
+        X.clear()
+        Y = mk_synapse(s["cls"], s["shape"], reported[0], reported[1], reported[2], bool(reported[3]))
+        Y.clear()
+        return {"ok": True, "obs": {"init": init, "trace": trace, "reported": reported, "cleared": snap_syn(X, True),
+                                    "fresh_cleared": snap_syn(Y, True)}}
+    if fam == "conn_model":
+        spec = case["spec"]
+        X = factory.build_connection(spec)
+        shp = list(X.synapse.shape)
+
+        def snap_conn(full):
+            return [X.dt, X.batchsz, X.delayedby, type(X.synapse).__name__, snap_syn(X.synapse, full),
+                    int("synapses" in dict(X.named_children()))]
+        init = snap_conn(True)
+        trace = []
+        for op in case["ops"]:
+            if op[0] == "step":
+                X(rand_spikes(torch.Generator().manual_seed(1), (X.batchsz, *X.inshape), 0.4))
+                continue
+            if op[0] == "synapse":
+                try:
+                    new = mk_synapse(op[1], shp, op[2], op[3], op[4], op[5])
+                    X.synapse = new
+                except (ValueError, RuntimeError):
+                    pass
+            else:
+                try_set(X, op[0], op[1])
+            trace.append(snap_conn(False))
+        reported = [type(X.synapse).__name__, X.synapse.dt, X.synapse.delay, X.synapse.batchsz, int(X.synapse.inplace)]
+        X.clear()
+        Y = mk_synapse(reported[0], shp, reported[1], reported[2], reported[3], bool(reported[4]))
+        Y.clear()
+        return {"ok": True, "obs": {"shp": shp, "init": init, "trace": trace, "reported": reported, "cleared": snap_conn(True),
+                                    "fresh_syn_cleared": snap_syn(Y, True)}}
+    if fam == "neuron_model":
+        s = case["spec"]
+        X = factory.build_neuron(s)
+        names = st_names(X)
+
+        def snap_n():
+            return [X.batchsz, [snap_st(X, n) for n in names]]
+        init = snap_n()
+        trace = []
+        for op in case["ops"]:
+            if op == "step":
+                x = ((torch.rand((X.batchsz, *X.shape)) * 80.0 - 10.0) * 8).round() / 8
+                X(x, **({"adapt": False} if s["cls"] in factory.ADAPTIVE else {}))
+                continue
+            try_set(X, "batchsz", op)
+            trace.append(snap_n())
+        b = X.batchsz
+        X.clear()
+        Y = factory.build_neuron(dict(s, batch=b))
+        KEEP.append(Y)
+        return {"ok": True, "obs": {"names": names, "init": init, "trace": trace, "cleared": snap_n(),
+                                    "fresh": [Y.batchsz, [snap_st(Y, n) for n in names]]}}
+    raise ValueError(fam)
 
 
 def handler(payload):
